@@ -218,7 +218,7 @@ type Base struct {
 
 // extend builds a second base on top of b that ends shortly before the SECOND window boundary
 // (thorough tier): histories from it have a completed, persisted window behind them.
-func (b *Base) extend(r *lib.RNG, res *lib.Result) *Base {
+func (b *Base) extend(r *lib.RNG, res *lib.Result, only int) *Base {
 	f := &Base{Hot: append([]int{}, b.Hot...)}
 	rb := r.Fork(78)
 	type seg struct {
@@ -239,6 +239,9 @@ func (b *Base) extend(r *lib.RNG, res *lib.Result) *Base {
 	}
 	segs = append(segs, seg{target - at, nil})
 	for i := range b.W {
+		if only >= 0 && i != only {
+			continue
+		}
 		w := b.W[i].fork("base2", rb.Fork(uint64(i)), uint64(40+i), nil, Variant{}, false)
 		w.quiet = true
 		for _, sg := range segs {
@@ -554,6 +557,9 @@ func runDirected(bases *Base, far *Base, d Directed, r *lib.RNG, id uint64, res 
 		bases, pool = far, far.Pool
 	}
 	for _, newState := range []bool{false, true} {
+		if bi := map[bool]int{false: 0, true: 1}[newState]; d.Near && bases != nil && bases.W[bi] == nil {
+			continue
+		}
 		prunerInit := newState || d.Pruning // vary the initialiser with the backend
 		w := startWorld(bases, d.Near, d.Name, r, id*2+map[bool]uint64{false: 0, true: 1}[newState], res, pool, v, newState, prunerInit)
 		w.Tampered = d.BelowFloor
@@ -614,13 +620,16 @@ func probeVariant(bases *Base, r *lib.RNG) Variant {
 // Random histories
 // ---------------------------------------------------------------------------------------------
 
-func runRandom(bases *Base, far *Base, r *lib.RNG, id uint64, res *lib.Result, f lib.Flags, pool *DrvPool, v Variant) {
-	near := r.Chance(2, 3)
-	if near && far != nil && r.Chance(1, 3) {
-		bases, pool = far, far.Pool
-		res.Hit("history:random-near-second-boundary")
-	}
+func runRandom(bases *Base, near, isFar bool, r *lib.RNG, id uint64, res *lib.Result, f lib.Flags, pool *DrvPool, v Variant) {
 	newState := r.Bool()
+	if isFar {
+		res.Hit("history:random-near-second-boundary")
+		if bases.W[0] == nil {
+			newState = true
+		} else if bases.W[1] == nil {
+			newState = false
+		}
+	}
 	prunerInit := r.Bool()
 	name := fmt.Sprintf("random-%d", id)
 	w := startWorld(bases, near, name, r, id, res, pool, v, newState, prunerInit)
